@@ -15,6 +15,8 @@ pub fn library() -> Vec<PkgSpec> {
     vec![
         // producer: two same-typed functions and an instance with two same-typed functions
         PkgSpec::new("t:prod", None, &[], &[("a", f0.clone()), ("b", f0.clone()), ("n", nx.clone())]),
+        // the same package name at another version, with different content
+        PkgSpec::new("t:prod", Some("2.0.0"), &[], &[("a", f0.clone()), ("b", f0.clone()), ("n", nx.clone()), ("c", f0.clone())]),
         // consumer: two same-typed slots, and an instance slot
         PkgSpec::new("t:cons", Some("1.2.0"), &[("p", f0.clone()), ("q", f0.clone())], &[("r", f0.clone())]),
         // middle: consumes one, offers the same names as the producer (sibling trap)
@@ -29,8 +31,8 @@ pub fn library() -> Vec<PkgSpec> {
 
 pub fn universe(prop: &'static str, tier: Tier) -> Universe {
     let mut u = Universe::build(prop, library());
-    u.add_import_kind_from_import(1, "p");
-    u.add_import_kind_from_import(2, "m");
+    u.add_import_kind_from_import(2, "p");
+    u.add_import_kind_from_import(3, "m");
     let s = |v: &[&str]| v.iter().map(|x| x.to_string()).collect::<Vec<_>>();
     u.alias_names = s(&["a", "b", "n", "x", "y", "r", "deep"]);
     u.import_names = s(&["p", "k"]);
@@ -40,25 +42,27 @@ pub fn universe(prop: &'static str, tier: Tier) -> Universe {
     u.define_names = vec![];
     u.names = classify_names(&["a", "b", "n", "x", "y", "r", "deep", "p", "q", "m", "k", "e1", "e2"]);
     u.max_nodes = 7;
-    u.max_pkgs = 3;
+    u.max_pkgs = 4;
     u.ops = ["Instantiate", "Alias", "Import", "SetArg", "Export", "SetName"].into_iter().collect();
     u
 }
 
 pub fn seeds() -> Vec<Vec<Op>> {
     let s = |x: &str| x.to_string();
-    let reg = vec![Op::Register(0), Op::Register(1), Op::Register(2)];
+    let reg = vec![Op::Register(0), Op::Register(1), Op::Register(2), Op::Register(3)];
     let with = |ops: Vec<Op>| -> Vec<Op> { reg.iter().cloned().chain(ops).collect() };
     vec![
         with(vec![]),
+        // both versions of the same package name, one consumer
+        with(vec![Op::Instantiate(0), Op::Instantiate(1), Op::Alias(0, s("a")), Op::Alias(1, s("a")), Op::Instantiate(2)]),
         // producer + consumer, both slot candidates aliased
-        with(vec![Op::Instantiate(0), Op::Alias(0, s("a")), Op::Alias(0, s("b")), Op::Instantiate(1)]),
+        with(vec![Op::Instantiate(0), Op::Alias(0, s("a")), Op::Alias(0, s("b")), Op::Instantiate(2)]),
         // two producers (same package twice) + consumer: sibling ambiguity
-        with(vec![Op::Instantiate(0), Op::Instantiate(0), Op::Alias(0, s("a")), Op::Alias(1, s("a")), Op::Instantiate(1)]),
+        with(vec![Op::Instantiate(0), Op::Instantiate(0), Op::Alias(0, s("a")), Op::Alias(1, s("a")), Op::Instantiate(2)]),
         // diamond: one alias feeds two consumers, one of them wired
-        with(vec![Op::Instantiate(0), Op::Alias(0, s("a")), Op::Instantiate(1), Op::Instantiate(1), Op::SetArg(2, s("p"), 1)]),
+        with(vec![Op::Instantiate(0), Op::Alias(0, s("a")), Op::Instantiate(2), Op::Instantiate(2), Op::SetArg(2, s("p"), 1)]),
         // alias of alias of nested instance export; instance argument
-        with(vec![Op::Instantiate(2), Op::Alias(0, s("n")), Op::Alias(1, s("deep")), Op::Alias(2, s("x")), Op::Instantiate(2)]),
+        with(vec![Op::Instantiate(3), Op::Alias(0, s("n")), Op::Alias(1, s("deep")), Op::Alias(2, s("x")), Op::Instantiate(3)]),
         // node exported under two names, named nodes, explicit import as an argument
         with(vec![
             Op::Instantiate(0),
@@ -66,7 +70,7 @@ pub fn seeds() -> Vec<Vec<Op>> {
             Op::Export(1, s("e1")),
             Op::SetName(1, s("n1")),
             Op::Import(s("k"), 0),
-            Op::Instantiate(1),
+            Op::Instantiate(2),
             Op::SetArg(3, s("q"), 2),
         ]),
     ]
